@@ -3,6 +3,7 @@ use crate::verif::report::Report;
 
 pub(crate) mod c01;
 pub(crate) mod c02;
+pub(crate) mod c03;
 pub(crate) mod c07;
 pub(crate) mod c10;
 pub(crate) mod c13;
@@ -29,6 +30,7 @@ pub(crate) fn run(id: &str, opts: &Opts) -> Option<i32> {
     match id {
         "C01" => c01::run(opts, &mut report),
         "C02" => c02::run(opts, &mut report),
+        "C03" => c03::run(opts, &mut report),
         "C07" => c07::run(opts, &mut report),
         "C10" => c10::run(opts, &mut report),
         "C13" => c13::run(opts, &mut report),
